@@ -935,7 +935,11 @@ func (v Value) toReflectValue(typ reflect.Type) (reflect.Value, error) {
 			}
 			exported := reflect.ValueOf(v.export())
 			if exported.IsValid() && exported.Type().ConvertibleTo(typ) {
-				if typ.Kind() == reflect.Array && exported.Kind() == reflect.Slice && exported.Len() != typ.Len() {
+				array := typ
+				if typ.Kind() == reflect.Ptr {
+					array = typ.Elem() // a slice also converts to a pointer to an array
+				}
+				if array.Kind() == reflect.Array && exported.Kind() == reflect.Slice && exported.Len() != array.Len() {
 					// Convert panics for a shorter slice and drops the tail of a longer one.
 					return reflect.Value{}, fmt.Errorf("TypeError: could not convert an array of length %d to %v", exported.Len(), typ)
 				}
